@@ -619,8 +619,9 @@ def run_boot_cv(ctx, routine, tap):
     boot_type = gen.pick(rng, ['both', 'pattern', 'rdm']) if routine != 'eval_dual_bootstrap' else 'both'
     use_corr = bool(n_cv > 1 and rng.integers(2))
     seed = int(rng.integers(2 ** 31))
-    kw = dict(method=method, fitter=fit_arg, N=N, n_cv=n_cv, pattern_descriptor=pdesc, rdm_descriptor=rdesc,
-              use_correction=use_corr)
+    # the number of repetitions as a Python int or as a (possibly unsigned) numpy integer
+    kw = dict(method=method, fitter=fit_arg, N=N, n_cv=[n_cv, np.uint8(n_cv), np.int64(n_cv)][int(rng.integers(3))],
+              pattern_descriptor=pdesc, rdm_descriptor=rdesc, use_correction=use_corr)
     if routine == 'eval_dual_bootstrap_random':
         # test sets need >= 3 condition groups (or no split over conditions at all)
         n_p = 3 if (n_pg >= 7 and rng.integers(2)) else 0
